@@ -298,21 +298,30 @@ fn track_walk<'a>(node: &ast::Stmt<'a>, state: &mut AssignmentTracker<'a>) {
             state.assigned = outer;
         }
         #[cfg(feature = "multi_template")]
-        ast::Stmt::Extends(_) | ast::Stmt::Include(_) => {}
+        ast::Stmt::Extends(stmt) => tracker_visit_expr(&stmt.name, state),
+        #[cfg(feature = "multi_template")]
+        ast::Stmt::Include(stmt) => tracker_visit_expr(&stmt.name, state),
         #[cfg(feature = "multi_template")]
         ast::Stmt::Import(stmt) => {
+            tracker_visit_expr(&stmt.expr, state);
             track_assign(&stmt.name, state);
         }
         #[cfg(feature = "multi_template")]
-        ast::Stmt::FromImport(stmt) => stmt.names.iter().for_each(|(arg, alias)| {
-            track_assign(alias.as_ref().unwrap_or(arg), state);
-        }),
+        ast::Stmt::FromImport(stmt) => {
+            tracker_visit_expr(&stmt.expr, state);
+            stmt.names.iter().for_each(|(arg, alias)| {
+                track_assign(alias.as_ref().unwrap_or(arg), state);
+            })
+        }
         #[cfg(feature = "macros")]
         ast::Stmt::Macro(stmt) => {
-            state.assign(stmt.name);
+            // the values a macro refers to are captured when the macro is
+            // declared, which is before its own name is assigned: a macro
+            // that mentions itself looks its name up once.
             state.push();
             tracker_visit_macro(stmt, state, true);
             state.pop();
+            state.assign(stmt.name);
         }
         #[cfg(feature = "macros")]
         ast::Stmt::CallBlock(stmt) => {
@@ -356,6 +365,22 @@ mod tests {
         assert_eq!(undeclared("{% autoescape flag %}{% endautoescape %}"), ["flag"]);
         assert_eq!(undeclared("{% set y | f(q) %}{% endset %}{{ y }}"), ["q"]);
         assert_eq!(undeclared("{% filter f(q) %}{% endfilter %}"), ["q"]);
+    }
+
+    #[test]
+    #[cfg(feature = "macros")]
+    fn test_macro_name_is_assigned_after_the_declaration() {
+        assert_eq!(undeclared("{% macro m() %}{{ m() }}{% endmacro %}{{ m() }}"), ["m"]);
+        assert!(undeclared("{% macro m() %}x{% endmacro %}{{ m() }}").is_empty());
+    }
+
+    #[test]
+    #[cfg(feature = "multi_template")]
+    fn test_template_name_expressions_are_visited() {
+        assert_eq!(undeclared("{% include a %}"), ["a"]);
+        assert_eq!(undeclared("{% extends b %}"), ["b"]);
+        assert_eq!(undeclared("{% import c as m %}{{ m }}"), ["c"]);
+        assert_eq!(undeclared("{% from d import x as y %}{{ y }}{{ x }}"), ["d", "x"]);
     }
 
     #[test]
